@@ -22,19 +22,22 @@ type workerCheckpoint struct {
 
 func newCheckpoint(stats SamplingStats) checkpoint {
 	workers := make([]workerCheckpoint, 0, len(stats.Workers))
+	sampleFrom := stats.CatchupHead + 1
 	for _, w := range stats.Workers {
-		// no need to resume recent jobs after restart. On the other hand, retry jobs will resume from
-		// failed heights map. it leaves only catchup jobs to be stored and resumed
-		if w.JobType == catchupJob {
+		// no need to resume recent jobs after restart as long as the catchup cursor has not passed them.
+		// On the other hand, retry jobs will resume from failed heights map. it leaves catchup jobs to
+		// be stored and resumed, together with recent jobs for heights the cursor has already skipped:
+		// those would otherwise be lost if the worker is stopped before it reports.
+		if w.JobType == catchupJob || (w.JobType == recentJob && w.To < sampleFrom) {
 			workers = append(workers, workerCheckpoint{
 				From:    w.Curr,
 				To:      w.To,
-				JobType: w.JobType,
+				JobType: catchupJob,
 			})
 		}
 	}
 	return checkpoint{
-		SampleFrom:  stats.CatchupHead + 1,
+		SampleFrom:  sampleFrom,
 		NetworkHead: stats.NetworkHead,
 		Failed:      stats.Failed,
 		Workers:     workers,
